@@ -353,3 +353,162 @@ def inline_closures(toks, log):
                 break
             i += 1
     return out
+
+
+# ---------------------------------------------------------------------------------------------------------------------
+# R2 (normalisation): iterator chains `SRC.iter()[.rev()] .skip_while(..) .take_while(..) .filter(..) .map(..) .skip(n)` consumed by a
+# `for` loop, or ending in find / find_map / any / all in tail / `return` position, are rewritten into the canonical
+# `for it in SRC.iter()[.rev()] { <adapter tests> ; BODY }` form (each adapter with its own std meaning).  The unit's ordinary loop rule
+# (with its invariant) then applies, so an algorithm re-expressed with adapters is DECIDED against the same invariant instead of
+# losing the anchor.
+_ADAPTERS = {"skip_while", "take_while", "filter", "map", "skip", "cloned", "copied"}
+_TERMINALS = {"find", "find_map", "any", "all"}
+
+
+def _closure_parts(arg_toks):
+    """`| p | body...` -> (param_name, body tokens) or None"""
+    if len(arg_toks) < 3 or arg_toks[0] != "|":
+        return None
+    if arg_toks[2] == "|" and IDENT_RE.match(arg_toks[1]):
+        return arg_toks[1], arg_toks[3:]
+    if arg_toks[1] == "&" and len(arg_toks) > 3 and arg_toks[3] == "|" and IDENT_RE.match(arg_toks[2]):
+        return None
+    return None
+
+
+def normalize_chains(toks, log):
+    out = list(toks)
+    guard = 0
+    start = 0
+    while guard < 50:
+        guard += 1
+        # locate `. iter ( )` followed by something from the sets
+        i = None
+        for j in range(start, len(out) - 3):
+            if out[j] == "." and out[j + 1] == "iter" and out[j + 2] == "(" and out[j + 3] == ")":
+                k = j + 4
+                rev = False
+                if out[k:k + 4] == [".", "rev", "(", ")"]:
+                    rev = True; k += 4
+                if k + 2 < len(out) and out[k] == "." and out[k + 1] in (_ADAPTERS | _TERMINALS) and out[k + 2] == "(":
+                    i = j; break
+        if i is None:
+            return out
+        # source expression: walk backwards over a postfix expression
+        s = i
+        while s > 0:
+            t = out[s - 1]
+            if t in (")", "]"):
+                # find the matching opener
+                depth, q = 0, s - 1
+                while q >= 0:
+                    if out[q] in (")", "]", "}"): depth += 1
+                    if out[q] in ("(", "[", "{"):
+                        depth -= 1
+                        if depth == 0: break
+                    q -= 1
+                s = q; continue
+            if IDENT_RE.match(t) and t not in ("in", "return", "let", "if", "else", "match", "mut") or t in (".", "::", "self") or (t.isdigit() and s >= 2 and out[s - 2] == "."):
+                s -= 1; continue
+            break
+        src = out[s:i]
+        k = i + 4
+        rev = False
+        if out[k:k + 4] == [".", "rev", "(", ")"]:
+            rev = True; k += 4
+        chain = []
+        while k + 2 < len(out) and out[k] == "." and out[k + 1] in (_ADAPTERS | _TERMINALS) and out[k + 2] == "(":
+            c = match_close(out, k + 2)
+            chain.append((out[k + 1], out[k + 3:c]))
+            k = c + 1
+            if chain[-1][0] in _TERMINALS:
+                break
+        end = k
+        has_term = bool(chain) and chain[-1][0] in _TERMINALS
+        head = [*src, ".", "iter", "(", ")"] + ([".", "rev", "(", ")"] if rev else [])
+        n = guard
+        it = f"verif_it_{n}"
+
+        def adapters(lst):
+            pre, code, cur = [], [], it
+            for a_i, (name, args) in enumerate(lst):
+                if name in ("cloned", "copied"):
+                    continue
+                if name == "skip":
+                    cnt = f"verif_skip_{n}_{a_i}"
+                    pre += ["let", "mut", cnt, ":", "usize", "=", *args, ";"]
+                    code += ["if", cnt, ">", "0", "{", cnt, "-=", "1", ";", "continue", ";", "}"]
+                    continue
+                cp = _closure_parts(args)
+                if cp is None:
+                    return None
+                p, body = cp
+                if name == "skip_while":
+                    fl = f"verif_skipping_{n}_{a_i}"
+                    pre += ["let", "mut", fl, "=", "true", ";"]
+                    code += ["if", fl, "{", "let", p, "=", "&", cur, ";", "if", *body, "{", "continue", ";", "}", fl, "=", "false", ";", "}"]
+                elif name == "take_while":
+                    code += ["{", "let", p, "=", "&", cur, ";", "if", "!", "(", *body, ")", "{", "break", ";", "}", "}"]
+                elif name == "filter":
+                    code += ["{", "let", p, "=", "&", cur, ";", "if", "!", "(", *body, ")", "{", "continue", ";", "}", "}"]
+                elif name == "map":
+                    nxt = f"verif_m_{n}_{a_i}"
+                    code += ["let", nxt, "=", "{", "let", p, "=", cur, ";", *body, "}", ";"]
+                    cur = nxt
+            return pre, code, cur
+
+        # ---- FOR form:  for PAT in CHAIN {
+        if not has_term and s >= 2 and out[s - 1] == "in" and end < len(out) and out[end] == "{":
+            f0 = s - 2
+            while f0 >= 0 and out[f0] != "for":
+                f0 -= 1
+            pat = out[f0 + 1:s - 1] if f0 >= 0 else None
+            r = adapters(chain)
+            if pat is None or r is None or len(pat) != 1:
+                start = i + 1; continue
+            pre, code, cur = r
+            bc = match_close(out, end)
+            new = [*pre, "for", it, "in", *head, "{", *code, "let", pat[0], "=", cur, ";", *out[end + 1:bc], "}"]
+            log.append(("R2", text(out[f0:end])[:170], text(new[:len(pre) + 12])[:170] + " ..", "iterator adapters -> canonical for loop with the adapters' tests in front of the body"))
+            out = out[:f0] + new + out[bc + 1:]
+            start = 0
+            continue
+        # ---- RETURN / tail form
+        is_ret = s >= 1 and out[s - 1] == "return" and end < len(out) and out[end] == ";"
+        is_tail = end == len(out) and (s == 0 or out[s - 1] in (";", "}"))
+        if has_term and (is_ret or is_tail):
+            r = adapters(chain[:-1])
+            cp = _closure_parts(chain[-1][1])
+            if r is None or cp is None:
+                start = i + 1; continue
+            pre, code, cur = r
+            p, body = cp
+            tname = chain[-1][0]
+            if tname == "find":
+                test = ["{", "let", p, "=", "&", cur, ";", "if", *body, "{", "return", "Some", "(", cur, ")", ";", "}", "}"]; dflt = ["None"]
+            elif tname == "find_map":
+                test = ["{", "let", p, "=", cur, ";", "let", f"verif_fm_{n}", "=", *body, ";", "if", f"verif_fm_{n}", ".", "is_some", "(", ")", "{", "return", f"verif_fm_{n}", ";", "}", "}"]; dflt = ["None"]
+            elif tname == "any":
+                test = ["{", "let", p, "=", cur, ";", "if", *body, "{", "return", "true", ";", "}", "}"]; dflt = ["true" if False else "false"]
+            else:
+                test = ["{", "let", p, "=", cur, ";", "if", "!", "(", *body, ")", "{", "return", "false", ";", "}", "}"]; dflt = ["true"]
+            new = [*pre, "for", it, "in", *head, "{", *code, *test, "}"]
+            a0 = s - 1 if is_ret else s
+            tailtoks = (["return", *dflt, ";"] if is_ret else dflt)
+            log.append(("R2", text(out[a0:end + (1 if is_ret else 0)])[:170], text(new[:14])[:170] + " ..", f"iterator chain ending in {tname}() in return position -> canonical for loop with early return"))
+            out = out[:a0] + new + tailtoks + out[end + (1 if is_ret else 0):]
+            start = 0
+            continue
+        # ---- `let NAME = CHAIN ;` used once by a later `for x in NAME {`
+        if not has_term and s >= 3 and out[s - 1] == "=" and out[s - 3] == "let" and IDENT_RE.match(out[s - 2]) and end < len(out) and out[end] == ";":
+            name = out[s - 2]
+            uses = [q for q in range(end + 1, len(out)) if out[q] == name]
+            if len(uses) == 1 and out[uses[0] - 1] == "in" and uses[0] + 1 < len(out) and out[uses[0] + 1] == "{":
+                chain_toks = out[s:end]
+                u = uses[0]
+                out = out[:s - 3] + out[end + 1:u] + chain_toks + out[u + 1:]
+                log.append(("R2", f"let {name} = <iterator chain>; .. for _ in {name}", "chain written at its single use", "single-use binding of an iterator chain inlined"))
+                start = 0
+                continue
+        start = i + 1
+    return out
